@@ -193,13 +193,20 @@ Definition exec (cf : config) (s : shared) (l : tlocal) (p : pc) (x : N)
       let '(h, e) := a_load s LHead o_traverse_head in
       (s, l, [e], if h =? 0 then NGoto GPush0 else NGoto (GCool1 (h - 1)))
   | GCool1 w =>
+      (* check_cooldown: a cheap look first *)
       let '(v, e) := a_load s (LInUse w) o_check_inuse in
       (s, l, [e], if v =? NODE_COOLDOWN then NGoto (GCool2 w) else NGoto (GClaim w))
   | GCool2 w =>
-      let '(v, e) := a_load s (LWriters w) o_check_writers in
-      (s, l, [e], if v =? 0 then NGoto (GCool3 w) else NGoto (GClaim w))
+      (* take the node over (COOLDOWN -> USED) before looking at the writers *)
+      let '(s', _, ok, e) := a_cas s (LInUse w) NODE_COOLDOWN NODE_USED o_check_cas false false in
+      (s', l, [e], if ok then NGoto (GCool3 w) else NGoto (GClaim w))
   | GCool3 w =>
-      let '(s', _, _, e) := a_cas s (LInUse w) NODE_COOLDOWN NODE_UNUSED o_check_cas false false in
+      (* holding the node: is any writer still inside? *)
+      let '(v, e) := a_load s (LWriters w) o_check_writers in
+      if v =? 0 then (s, tl_set_node l (Some w), [e], NRet (RNode w))
+      else (s, l, [e], NGoto (GBack w))
+  | GBack w =>
+      let '(s', e) := a_store s (LInUse w) NODE_COOLDOWN o_check_back in
       (s', l, [e], NGoto (GClaim w))
   | GClaim w =>
       let '(s', _, ok, e) := a_cas s (LInUse w) NODE_UNUSED NODE_USED o_get_claim false false in
